@@ -28,7 +28,8 @@ def real_case(case):
 
 
 def is_pre(case):
-    return any(p and p[0] == 'cn' for p in case['progs'])
+    """cases the thread model has no program for: they start before the connection exists (`cn`) or abandon the loop (`ab`)"""
+    return any(p and p[0] in ('cn', 'ab') for p in case['progs'])
 
 
 def progs_str(case):
@@ -306,7 +307,7 @@ def expected_of(tok):
         return (8, close_payload(c[1], c[2]))
     if k == 'tk':
         return (9, b'')
-    if k in ('rm', 'rm2', 'cn'):
+    if k in ('rm', 'rm2', 'cn', 'ab'):
         return None         # the loop receives a message / connects: no frame is written
     raise ValueError(tok)
 
